@@ -260,6 +260,7 @@ type verifEnv struct {
 	restarts int
 	sysKey   int
 	startup  []string
+	progress bool // a handler started since the flag was cleared
 }
 
 func (e *verifEnv) park(label string, dying <-chan struct{}) bool {
@@ -517,7 +518,13 @@ func (e *verifEnv) newInstance(data []byte) *verifInst {
 			}
 			e.cur = &verifCur{chg: chgID, which: which, kind: kind}
 			defer func() { e.cur = nil }()
-			return h(t, tb)
+			e.progress = true
+			err := h(t, tb)
+			if _, ok := err.(*state.Retry); ok {
+				c.Count("probe:task-asked-for-retry")
+				c.Logf("  -> retry later")
+			}
+			return err
 		}
 	})
 	e.in = in
@@ -1146,12 +1153,19 @@ func (e *verifEnv) driveAll(first *verifChange, overlapAt int, faultsOn bool) ([
 			idle = 0
 			continue
 		}
+		if e.progress {
+			e.progress = false
+			idle = 0
+			continue
+		}
 		idle++
 		if idle >= 2 {
-			// nothing running, nothing runnable: tasks wait for a retry time
+			// nothing running, nothing was started by two ensure passes:
+			// tasks wait for a retry time
 			time.Sleep(500 * time.Millisecond)
 			synctest.Wait()
-			c.Count("clock-steps")
+			c.Count("probe:clock-advanced-for-retry")
+			c.Logf("  clock +500ms")
 		}
 	}
 }
